@@ -14,7 +14,6 @@ M = [
  ('c01-updates-minus1', 'C01', 'xmss/xmss.go', 'bdsTreeHashUpdate(hashFunction, bdsState, (params.h-params.k)>>1, skSeed', 'bdsTreeHashUpdate(hashFunction, bdsState, ((params.h-params.k)>>1)-1, skSeed'),
  ('c01-last-guard', 'C01', 'xmss/xmss.go', 'if idx < (uint32(1)<<params.h)-1 {', 'if idx <= (uint32(1)<<params.h)-1 {'),
  ('c01-bdsround-idx1', 'C01', 'xmss/xmss.go', 'bdsRound(hashFunction, bdsState, idx, skSeed, params, pubSeed, &otsAddr)', 'bdsRound(hashFunction, bdsState, idx+1, skSeed, params, pubSeed, &otsAddr)'),
- ('c01-retain-row', 'C01', 'xmss/xmss_fast.go', 'rowIdx := ((leafIdx >> i) - 1) >> 1', 'rowIdx := ((leafIdx >> i) - 1) >> 1 & 0'),
  ('c01-startidx-bound', 'C01', 'xmss/xmss_fast.go', 'if startIdx < (1 << h) {', 'if startIdx < (1<<h)-(1<<i) {'),
  ('c01-auth-copy-short', 'C01', 'xmss/xmss.go', 'copy(sigMsg[sigMsgLen:sigMsgLen+params.h*params.n], bdsState.auth[:params.h*params.n])', 'copy(sigMsg[sigMsgLen:sigMsgLen+params.h*params.n], bdsState.auth[:params.h*params.n-1])'),
  # --- C02 index discipline
@@ -27,7 +26,7 @@ M = [
  # --- C08 restart equivalence
  ('c08-ff-skips-update-every-8', 'C08', 'xmss/xmss_fast.go', '\t\tbdsTreeHashUpdate(hashFunction, bdsState, (params.h-params.k)>>1, skSeed, params, pubSeed, &otsAddr)\n\t}\n\n\tsk[0] = uint8(newIdx >> 24 & 0xff)', '\t\tif j&7 != 7 {\n\t\t\tbdsTreeHashUpdate(hashFunction, bdsState, (params.h-params.k)>>1, skSeed, params, pubSeed, &otsAddr)\n\t\t}\n\t}\n\n\tsk[0] = uint8(newIdx >> 24 & 0xff)'),
  ('c08-ff-start-plus1', 'C08', 'xmss/xmss_fast.go', 'for j := currentIdx; j < newIdx; j++ {', 'for j := currentIdx + 1; j < newIdx; j++ {'),
- ('c08-ff-update-count', 'C08', 'xmss/xmss_fast.go', '\t\tbdsTreeHashUpdate(hashFunction, bdsState, (params.h-params.k)>>1, skSeed, params, pubSeed, &otsAddr)\n\t}\n\n\tsk[0] = uint8(newIdx >> 24 & 0xff)', '\t\tbdsTreeHashUpdate(hashFunction, bdsState, ((params.h-params.k)>>1)+1, skSeed, params, pubSeed, &otsAddr)\n\t}\n\n\tsk[0] = uint8(newIdx >> 24 & 0xff)'),
+ ('ok-ff-extra-update', '', 'xmss/xmss_fast.go', '\t\tbdsTreeHashUpdate(hashFunction, bdsState, (params.h-params.k)>>1, skSeed, params, pubSeed, &otsAddr)\n\t}\n\n\tsk[0] = uint8(newIdx >> 24 & 0xff)', '\t\tbdsTreeHashUpdate(hashFunction, bdsState, ((params.h-params.k)>>1)+1, skSeed, params, pubSeed, &otsAddr)\n\t}\n\n\tsk[0] = uint8(newIdx >> 24 & 0xff)'),
  ('c08-extseed-drops-last-byte', 'C08 C09', 'xmss/xmss.go', 'copy(seed[:], extendedSeed[common.DescriptorSize:])', 'copy(seed[:], extendedSeed[common.DescriptorSize:common.ExtendedSeedSize-1])'),
  # --- C09 recovery
  ('c09-new-stores-hashed-seed', 'C09', 'dilithium/dilithium.go', '\tif _, err := cryptoSignKeypair(hashedSeed[:], &pk, &sk); err != nil {\n\t\treturn nil, err\n\t}\n\n\treturn &Dilithium{pk, sk, seed, false}, nil\n}\n\nfunc NewDilithiumFromSeed', '\tif _, err := cryptoSignKeypair(hashedSeed[:], &pk, &sk); err != nil {\n\t\treturn nil, err\n\t}\n\tcopy(seed[:32], hashedSeed[:])\n\n\treturn &Dilithium{pk, sk, seed, false}, nil\n}\n\nfunc NewDilithiumFromSeed'),
@@ -56,3 +55,63 @@ def main():
         shutil.rmtree(d)
         print('wrote', name)
 main()
+
+# ---- C15 mutants (appended)
+M2 = [
+ ('c15-lazy-map-inplace', 'C15', 'misc/helper.go',
+  '\twordLookup := make(map[string]int)\n\n\tfor i, word := range qrl.WordList {\n\t\twordLookup[word] = i\n\t}\n',
+  '\tif len(wordLookup) < len(qrl.WordList) {\n\t\tfor i, word := range qrl.WordList {\n\t\t\twordLookup[word] = i\n\t\t}\n\t}\n',
+  '\nvar wordLookup = make(map[string]int)\n'),
+ ('c15-lazy-map-published', 'C15', 'misc/helper.go',
+  '\twordLookup := make(map[string]int)\n\n\tfor i, word := range qrl.WordList {\n\t\twordLookup[word] = i\n\t}\n',
+  '\twordLookup := cachedLookup\n\tif wordLookup == nil {\n\t\twordLookup = make(map[string]int)\n\t\tfor i, word := range qrl.WordList {\n\t\t\twordLookup[word] = i\n\t\t}\n\t\tcachedLookup = wordLookup\n\t}\n',
+  '\nvar cachedLookup map[string]int\n'),
+ ('c15-corehash-scratch', 'C15', 'xmss/hash.go',
+  '\tbuf := make([]uint8, inLen+n+keyLen)\n\tmisc.ToByteLittleEndian(buf, typeValue, n)',
+  '\tif uint32(cap(hashScratch)) < inLen+n+keyLen {\n\t\thashScratch = make([]uint8, inLen+n+keyLen)\n\t}\n\tbuf := hashScratch[:inLen+n+keyLen]\n\tmisc.ToByteLittleEndian(buf, typeValue, n)',
+  '\nvar hashScratch []uint8\n'),
+ ('c15-verify-patches-sig', 'C15', 'xmss/xmss.go',
+  '\ttmp := signature\n\n\treturn xmssVerifySig(hashFunction,\n\t\tparams.wotsParams,\n\t\tmessage,\n\t\ttmp,\n\t\textendedPK[common.DescriptorSize:],\n\t\theight)\n',
+  '\ttmp := signature\n\tsaved := tmp[0]\n\ttmp[0] &= 0x7f\n\tdefer func() { tmp[0] = saved }()\n\n\treturn xmssVerifySig(hashFunction,\n\t\tparams.wotsParams,\n\t\tmessage,\n\t\ttmp,\n\t\textendedPK[common.DescriptorSize:],\n\t\theight)\n',
+  ''),
+ ('c15-dil-sign-counter', 'C15', 'dilithium/dilithium.go',
+  '\treturn cryptoSign(message, &d.sk, d.randomizedSigning)\n}\n\n// Sign the message',
+  '\tsealCalls++\n\treturn cryptoSign(message, &d.sk, d.randomizedSigning)\n}\n\n// Sign the message',
+  '\nvar sealCalls uint64\n'),
+ ('c15-matrix-cache', 'C15', 'dilithium/polyvec.go',
+  'func polyVecMatrixExpand(mat *[K]polyVecL, rho *[SeedBytes]uint8) error {\n',
+  'func polyVecMatrixExpand(mat *[K]polyVecL, rho *[SeedBytes]uint8) error {\n\tif matCacheValid && matCacheRho == *rho {\n\t\t*mat = matCache\n\t\treturn nil\n\t}\n\tdefer func() {\n\t\tmatCacheValid = false\n\t\tmatCacheRho = *rho\n\t\tmatCache = *mat\n\t\tmatCacheValid = true\n\t}()\n',
+  '\nvar (\n\tmatCache      [K]polyVecL\n\tmatCacheRho   [SeedBytes]uint8\n\tmatCacheValid bool\n)\n'),
+ ('ok-once-cache', '', 'misc/helper.go',
+  '\twordLookup := make(map[string]int)\n\n\tfor i, word := range qrl.WordList {\n\t\twordLookup[word] = i\n\t}\n',
+  '\tlookupOnce.Do(func() {\n\t\tcachedLookup = make(map[string]int)\n\t\tfor i, word := range qrl.WordList {\n\t\t\tcachedLookup[word] = i\n\t\t}\n\t})\n\twordLookup := cachedLookup\n',
+  '\nvar (\n\tlookupOnce   sync.Once\n\tcachedLookup map[string]int\n)\n', '"strings"\n', '"strings"\n\t"sync"\n'),
+ ('ok-mutex-cache', '', 'misc/helper.go',
+  '\twordLookup := make(map[string]int)\n\n\tfor i, word := range qrl.WordList {\n\t\twordLookup[word] = i\n\t}\n',
+  '\tlookupMu.Lock()\n\tif cachedLookup == nil {\n\t\tcachedLookup = make(map[string]int)\n\t\tfor i, word := range qrl.WordList {\n\t\t\tcachedLookup[word] = i\n\t\t}\n\t}\n\twordLookup := cachedLookup\n\tlookupMu.Unlock()\n',
+  '\nvar (\n\tlookupMu     sync.Mutex\n\tcachedLookup map[string]int\n)\n', '"strings"\n', '"strings"\n\t"sync"\n'),
+ ('ok-init-cache', '', 'misc/helper.go',
+  '\twordLookup := make(map[string]int)\n\n\tfor i, word := range qrl.WordList {\n\t\twordLookup[word] = i\n\t}\n',
+  '\twordLookup := cachedLookup\n',
+  '\nvar cachedLookup = func() map[string]int {\n\tm := make(map[string]int)\n\tfor i, word := range qrl.WordList {\n\t\tm[word] = i\n\t}\n\treturn m\n}()\n'),
+]
+def main2():
+    for ent in M2:
+        name, props, f, old, new, tail = ent[:6]
+        src = open(os.path.join(REPO, f)).read()
+        if src.count(old) != 1:
+            print('SKIP %s: pattern occurs %d times' % (name, src.count(old))); continue
+        dst = src.replace(old, new) + tail
+        if len(ent) > 6:
+            assert dst.count(ent[6]) == 1, name
+            dst = dst.replace(ent[6], ent[7])
+        d = tempfile.mkdtemp()
+        a = os.path.join(d, 'a'); b = os.path.join(d, 'b')
+        os.makedirs(os.path.join(a, os.path.dirname(f))); os.makedirs(os.path.join(b, os.path.dirname(f)))
+        open(os.path.join(a, f), 'w').write(src)
+        open(os.path.join(b, f), 'w').write(dst)
+        p = subprocess.run(['diff', '-u', 'a/' + f, 'b/' + f], cwd=d, capture_output=True, text=True)
+        open(os.path.join(OUT, name + '.diff'), 'w').write('# expect: %s\n' % props + p.stdout)
+        shutil.rmtree(d)
+        print('wrote', name)
+main2()
